@@ -491,7 +491,12 @@ fn main() {
             install_panic_hook();
             let mut p = prng::Prng::new(seed_from_env());
             for _ in 0..args.get(2).and_then(|s| s.parse().ok()).unwrap_or(10) {
-                let src = if args.get(3).map(|s| s == "scaled").unwrap_or(false) { gen::scaled_program(&mut p) } else { gen::const_arith_program(&mut p) };
+                let src = match args.get(3).map(|s| s.as_str()) {
+                    Some("scaled") => gen::scaled_program(&mut p),
+                    Some("word") => gen::word_program(&mut p),
+                    Some("layout") => gen::layout_program(&mut p),
+                    _ => gen::const_arith_program(&mut p),
+                };
                 let a = analyse(&src, &mut p);
                 let r = guarded(|| compile_src(&src, "main", build_consts(&a.consts, &[], 0), Opts { register: false, dedup: true }, false));
                 let (o, _) = outcome_of(r);
